@@ -179,7 +179,9 @@ func (r *pedRun) run() {
 			deals = append(deals, b)
 		case "wrong-holder-index":
 			if len(b.Deals) > 0 {
-				b.Deals[0].ShareIndex = uint32(1000 + n.oidx)
+				// any position: a receiver that stops scanning at its own deal must not miss it
+				k := uniformInt(t, 0, len(b.Deals)-1, "whi."+n.name)
+				b.Deals[k].ShareIndex = uint32(1000 + n.oidx)
 			}
 			deals = append(deals, b)
 			r.noJust[n.oidx], r.mustEvict[n.oidx] = true, true
